@@ -596,6 +596,12 @@ class HistProp(Prop):
             nops = g.rng.choice([5, 20, 60] if tier == 'quick' else [5, 20, 60, 200])
             if not is_basic(t) and kind(t) in ('cont', 'union', 'vec') and nops > 20:
                 nops = 20
+            # (every op is followed by observations that walk the whole tree: long histories only on small values)
+            sz = len(show(v)) + len(show(t))
+            if sz > 8000:
+                nops = min(nops, 5)
+            elif sz > 1500:
+                nops = min(nops, 20)
             ops, _ = g.ops(t, v, nops, self.p_invalid)
             out.append(show(['hist', t, v] + ops))
         return out
